@@ -1,8 +1,8 @@
 (* C11 — property theorems only.  Proofs are in C11/Proofs.v; models in C11/Model.v (on C16's values, types, coerced).
    f = fuel for following type references, D = the item definitions of the model, T = an item definition tree.
    wf_defs / wf_idef: component names are key-ascending (a BTreeMap in the code).
-   clean_defs / clean: no collection type carries allowed values (the class of the known finding
-   `collection-allowed-values`: the code tests the whole list against the unary tests). *)
+   eval_item / var_eval = the code after the two fix: commits; eval_item_orig = the pinned commit (refuted below).
+   clean / plain_refs: no collection type / no referenced type carries allowed values (where the pinned commit was right). *)
 From Coq Require Import List NArith Bool Arith.
 From DV Require Import C16.Model C16.Proofs C11.Model C11.Proofs.
 Import ListNotations.
@@ -10,24 +10,23 @@ Import ListNotations.
 (* the copy-pasted closures all compute the one generic function of their simple type *)
 Theorem C11_copies_uniform_simple : forall p av v, simple_copy p av v = if is_atom p v then check_av av v else VNull.
 Proof. exact simple_copy_uniform. Qed.
-Theorem C11_copies_uniform_collection : forall p av v,
-  coll_copy p av v = match v with
-                     | VList vs => if forallb (is_atom p) vs then check_av av (VList vs) else VNull
-                     | _ => VNull end.
+Theorem C11_copies_uniform_collection : forall p ci av v,
+  coll_copy p ci av v = match v with
+                        | VList vs => if forallb (is_atom p) vs then coll_av ci av vs else VNull
+                        | _ => VNull end.
 Proof. exact coll_copy_uniform. Qed.
 Theorem C11_copies_uniform_variable : forall p v, var_copy p v = if is_atom p v then v else VNull.
 Proof. exact var_copy_uniform. Qed.
 Theorem C11_copies_uniform_types : forall p,
   type_simple_copy p = Some (TS (prim_simple p)) /\ type_coll_copy p = Some (TList (TS (prim_simple p))).
 Proof. intro p. split; [apply type_simple_copy_uniform | apply type_coll_copy_uniform]. Qed.
-Theorem C11_copies_uniform : forall fixed f D T v, eval_item_gen fixed f D T v = gcheck fixed false f D T v.
+Theorem C11_copies_uniform : forall ra ci f D T v, eval_item_gen ra ci f D T v = gcheck ra ci f D T v.
 Proof. exact eval_item_generic. Qed.
 
-(* the code's algorithm is the Spec, for every type tree and value outside the known class *)
-Theorem C11_impl_refines : forall f D T v, clean_defs D = true -> clean T = true -> eval_item f D T v = check f D T v.
+(* the code's algorithm is the Spec, for every type tree and every value *)
+Theorem C11_impl_refines : forall f D T v, eval_item f D T v = check f D T v.
 Proof. exact impl_refines. Qed.
-Theorem C11_input_refines : forall f D name r input,
-  clean_defs D = true -> var_eval f D name r input = input_spec f D name r input.
+Theorem C11_input_refines : forall f D name r input, var_eval f D name r input = input_spec f D name r input.
 Proof. exact var_eval_refines. Qed.
 
 (* conforming values pass unchanged; anything else becomes null, component-wise for component types *)
@@ -69,12 +68,18 @@ Theorem C11_referenced_orig_refuted :
   eval_item 5 D_small (IRef 1%N (Some [ULt 10%N])) (VAtom SNumber 50%N) = VNull /\
   eval_item_orig 5 D_small (IRef 1%N (Some [ULt 10%N])) (VAtom SNumber 50%N) = VAtom SNumber 50%N.
 Proof. exact referenced_orig_refuted. Qed.
-(* the known finding: the class excluded by `clean` is inhabited and fails *)
-Theorem C11_collection_allowed_values_known_witness :
+(* the pinned commit: the allowed values of a collection were tested on the whole list, so [5] was null for `< 10` *)
+Theorem C11_collection_orig_refuted :
   let T := ICollSimple PNumber (Some [ULt 10%N]) in
   let v := VList [VAtom SNumber 5%N] in
-  clean T = false /\ conforms 5 [] T v = true /\ check 5 [] T v = v /\ eval_item 5 [] T v = VNull.
-Proof. exact collection_allowed_values_known_witness. Qed.
+  clean T = false /\ conforms 5 [] T v = true /\ check 5 [] T v = v /\ eval_item 5 [] T v = v /\ eval_item_orig 5 [] T v = VNull /\
+  eval_item 5 [] T (VList [VAtom SNumber 5%N; VAtom SNumber 50%N]) = VNull.
+Proof. exact collection_orig_refuted. Qed.
+(* ... and these were its only deviations *)
+Theorem C11_orig_agrees_outside_findings : forall f D T v,
+  clean_defs D = true -> clean T = true -> forallb (fun e => plain_refs (snd e)) D = true -> plain_refs T = true ->
+  eval_item_orig f D T v = check f D T v.
+Proof. exact orig_agrees_outside_findings. Qed.
 
 Example C11_nonvacuous :
   wf_defs D_ex = true /\ clean_defs D_ex = true /\
@@ -103,5 +108,6 @@ Print Assumptions C11_output_wrap.
 Print Assumptions C11_output_unwrap.
 Print Assumptions C11_output_idempotent.
 Print Assumptions C11_referenced_orig_refuted.
-Print Assumptions C11_collection_allowed_values_known_witness.
+Print Assumptions C11_collection_orig_refuted.
+Print Assumptions C11_orig_agrees_outside_findings.
 Print Assumptions C11_nonvacuous.
